@@ -37,8 +37,11 @@ Init == /\ n = 0 /\ progress = [j \in J |-> Started] /\ lastSeen = [j \in J |-> 
         /\ results = [j \in J |-> [d \in DS |-> NoResult]] /\ closed = [j \in J |-> FALSE]
         /\ seenTs = [j \in J |-> {}] /\ uploaded = [j \in J |-> [d \in DS |-> NoResult]] /\ last = <<"Init">>
 
-Submit == /\ n < JobSlot /\ n' = n + 1 /\ last' = <<"Submit", n + 1>>
-          /\ UNCHANGED <<progress, lastSeen, results, closed, seenTs, uploaded>>
+\* spawn_job draws identifiers until one is unused: the source may repeat an identifier already issued `clash` times in a row
+\* (low.func.next_uuid); the new job gets a fresh identifier whatever the source does, the tracked jobs are untouched
+MaxClash == 2
+Submit(clash) == /\ n < JobSlot /\ (n = 0 => clash = 0) /\ n' = n + 1 /\ last' = <<"Submit", n + 1, clash>>
+                 /\ UNCHANGED <<progress, lastSeen, results, closed, seenTs, uploaded>>
 
 \* handle_controller: report = [status, ts, res] with status \in {"none", "progress", "shutdown"}, res \in {<<>>} \cup {<<d, b>>}
 Report(j, status, ts, res) ==
@@ -69,7 +72,7 @@ AskResult(j, d) ==
 
 Statuses == {"none", "progress", "shutdown"}
 ResChoices == {<<>>} \cup {<<d, b>> : d \in DS, b \in Bytes}
-Next == \/ Submit
+Next == \/ \E clash \in 0..MaxClash : Submit(clash)
         \/ \E j \in J, s \in Statuses, t \in TS, r \in ResChoices : Report(j, s, t, r)
         \/ \E ids \in SUBSET (1..(JobSlot + 1)) : AskProgress(ids)
         \/ \E j \in 1..(JobSlot + 1), d \in DS : AskResult(j, d)
